@@ -567,7 +567,12 @@ func (s *LinearState) FindCachedRules(ctx *Context, event Map) (map[string]*Rule
 		} else {
 			rule, err := RuleFromMap(ctx, r)
 			if err != nil {
-				return nil, err
+				// A fact that is shaped like a rule but isn't
+				// one (stored through the fact API; AddRule
+				// checks).  It must not fail the events that
+				// happen to match it: the other rules still run.
+				Log(WARN, ctx, "LinearState.FindCachedRules", "name", s.Name, "id", id, "error", err, "ignoring", true)
+				continue
 			}
 			// Give the rule its id before it is shared via the
 			// cache.  (Event processing used to set it on the
